@@ -727,10 +727,14 @@ Definition C02_full_statement_tokens : Prop :=
       .contains(..), a variable bound to such a test and each statement using it), handed on (argument of a
       call, field of a struct literal), declared (field, parameter, return type, impl) or constructed (the
       bitflags! constants, Extensions::all() / empty()), as (file below src/, enclosing fn or item, flag
-      names, normalised text), sorted, NO line numbers.  [C02_gate_inventory] pins the list: a new gate, a
-      different flag at an existing gate, a new way of handing the set on or a changed constant breaks it
-      (the check reports the difference entry by entry); moving code does not.
-   2. Model/GateMap.v [table] has one row per entry ([C02_gate_inventory_mapped]) naming the Gallina function
+      names, normalised text), sorted, NO line numbers: [GateSites.sites], informative detail.  PINNED by
+      [C02_gate_inventory] are its KEYS [GateSites.keys]: ("gate", file, fn, FLAG) - the fn consults FLAG (all
+      tests, lets bound to a test and their uses inside one fn collapse); ("carry", file, fn, "") - the fn / item
+      declares, stores, hands on or constructs a set without testing a flag; ("const", file, "bitflags!", TEXT)
+      - the type and each constant with its value.  A flag consulted in a fn that did not consult it, a gate
+      that disappears, a new carrier or a changed constant breaks it (the check reports the difference with
+      locations); rewriting a test inside its fn, reading the flag once into a local, or moving code does not.
+   2. Model/GateMap.v [table] has one row per key ([C02_gate_inventory_mapped]) naming the Gallina function
       and flag test that renders it (the function itself is carried as a witness), or why the entry decides
       nothing (Carrier / NotAGate); [C02_gate_table_checks]: Gate rows name flags of Gen/ExtBits.v that the
       entry's text mentions, a parser / analysis entry mentioning a flag is a Gate row, and each of the eight
@@ -742,132 +746,69 @@ From Coq Require String.
 Import String.StringSyntax.
 Local Open Scope string_scope.
 Theorem C02_gate_inventory :
-  GateSites.sites = [
-    ("analysis/event_consumer", "RecipeCollector::in_step", ["INLINE_QUANTITIES"],
-     "self.extensions.contains(Extensions::INLINE_QUANTITIES)");
-    ("analysis/event_consumer", "RecipeCollector::ingredient", ["ADVANCED_UNITS"],
-     "self.extensions.contains(Extensions::ADVANCED_UNITS)");
-    ("analysis/event_consumer", "RecipeCollector::metadata", ["MODES"],
-     "self.extensions.contains(Extensions::MODES)");
-    ("analysis/event_consumer", "RecipeCollector::timer", ["ADVANCED_UNITS"],
-     "self.extensions.contains(Extensions::ADVANCED_UNITS)");
-    ("analysis/event_consumer", "parse_events", [],
-     "RecipeCollector{extensions}");
-    ("analysis/event_consumer", "parse_events", [],
-     "fn(extensions: Extensions)");
-    ("analysis/event_consumer", "struct RecipeCollector", [],
-     "extensions: Extensions");
-    ("lib", "-", [],
-     "impl Default for Extensions");
-    ("lib", "CooklangParser::canonical", ["empty()"],
-     "Self::new(#0: Extensions::empty())");
-    ("lib", "CooklangParser::extended", ["all()"],
-     "Self::new(#0: Extensions::all())");
-    ("lib", "CooklangParser::extensions", [],
-     "fn() -> Extensions");
-    ("lib", "CooklangParser::extensions", [],
-     "self.extensions");
-    ("lib", "CooklangParser::new", [],
-     "Self{extensions}");
-    ("lib", "CooklangParser::new", [],
-     "fn(extensions: Extensions)");
-    ("lib", "CooklangParser::parse_metadata_with_options", [],
-     "analysis::parse_events(#2: self.extensions)");
-    ("lib", "CooklangParser::parse_metadata_with_options", [],
-     "parser::PullParser::new(#1: self.extensions)");
-    ("lib", "CooklangParser::parse_with_options", [],
-     "analysis::parse_events(#2: self.extensions)");
-    ("lib", "CooklangParser::parse_with_options", [],
-     "parser::PullParser::new(#1: self.extensions)");
-    ("lib", "Extensions::default", ["all()"],
-     "Self::all()");
-    ("lib", "Extensions::default", [],
-     "fn() -> Self");
-    ("lib", "bitflags!", ["ADVANCED_UNITS"],
-     "const ADVANCED_UNITS = 1 << 5");
-    ("lib", "bitflags!", ["COMPAT"; "COMPONENT_MODIFIERS"; "COMPONENT_ALIAS"; "ADVANCED_UNITS"; "MODES"; "INLINE_QUANTITIES"; "RANGE_VALUES"; "INTERMEDIATE_PREPARATIONS"],
-     "const COMPAT = Self::COMPONENT_MODIFIERS.bits() | Self::COMPONENT_ALIAS.bits() | Self::ADVANCED_UNITS.bits() | Self::MODES.bits() | Self::INLINE_QUANTITIES.bits() | Self::RANGE_VALUES.bits() | Self::INTERMEDIATE_PREPARATIONS.bits()");
-    ("lib", "bitflags!", ["COMPONENT_ALIAS"],
-     "const COMPONENT_ALIAS = 1 << 3");
-    ("lib", "bitflags!", ["COMPONENT_MODIFIERS"],
-     "const COMPONENT_MODIFIERS = 1 << 1");
-    ("lib", "bitflags!", ["INLINE_QUANTITIES"],
-     "const INLINE_QUANTITIES = 1 << 7");
-    ("lib", "bitflags!", ["INTERMEDIATE_PREPARATIONS"; "COMPONENT_MODIFIERS"],
-     "const INTERMEDIATE_PREPARATIONS = 1 << 11 | Self::COMPONENT_MODIFIERS.bits()");
-    ("lib", "bitflags!", ["MODES"],
-     "const MODES = 1 << 6");
-    ("lib", "bitflags!", ["RANGE_VALUES"],
-     "const RANGE_VALUES = 1 << 9");
-    ("lib", "bitflags!", ["TIMER_REQUIRES_TIME"],
-     "const TIMER_REQUIRES_TIME = 1 << 10");
-    ("lib", "bitflags!", [],
-     "struct Extensions: u32");
-    ("lib", "struct CooklangParser", [],
-     "extensions: Extensions");
-    ("parser/block_parser", "BlockParser::extension", [],
-     "fn(ext: Extensions)");
-    ("parser/block_parser", "BlockParser::extension", [],
-     "self.extensions.contains(ext)");
-    ("parser/block_parser", "BlockParser::new", [],
-     "Self{extensions}");
-    ("parser/block_parser", "BlockParser::new", [],
-     "fn(extensions: Extensions)");
-    ("parser/block_parser", "struct BlockParser", [],
-     "extensions: Extensions");
-    ("parser/mod", "PullParser::new", [],
-     "Self{extensions}");
-    ("parser/mod", "PullParser::new", [],
-     "Self{extensions}");
-    ("parser/mod", "PullParser::new", [],
-     "fn(extensions: Extensions)");
-    ("parser/mod", "PullParser::next_block", [],
-     "BlockParser::new(#3: self.extensions)");
-    ("parser/mod", "PullParser::next_metadata_block", [],
-     "BlockParser::new(#3: self.extensions)");
-    ("parser/mod", "parse_block", ["MODES"],
-     "let modes_active = bp.extension(Extensions::MODES)");
-    ("parser/mod", "parse_block", ["MODES"],
-     "use modes_active: (is_config_key && modes_active) || old_style_metadata");
-    ("parser/mod", "struct PullParser", [],
-     "extensions: Extensions");
-    ("parser/quantity", "parse_quantity", [],
-     "BlockParser::new(#3: bp.extensions)");
-    ("parser/quantity", "parse_quantity", ["ADVANCED_UNITS"],
-     "bp2.extension(Extensions::ADVANCED_UNITS)");
-    ("parser/quantity", "range_value", ["RANGE_VALUES"],
-     "!bp.extension(Extensions::RANGE_VALUES)");
-    ("parser/step", "check_alias", ["COMPONENT_ALIAS"],
-     "!bp.extension(Extensions::COMPONENT_ALIAS)");
-    ("parser/step", "modifiers", ["COMPONENT_MODIFIERS"],
-     "!bp.extension(Extensions::COMPONENT_MODIFIERS)");
-    ("parser/step", "modifiers", ["INTERMEDIATE_PREPARATIONS"],
-     "bp.extension(Extensions::INTERMEDIATE_PREPARATIONS)");
-    ("parser/step", "parse_alias", ["COMPONENT_ALIAS"],
-     "bp.extension(Extensions::COMPONENT_ALIAS)");
-    ("parser/step", "parse_modifiers", ["INTERMEDIATE_PREPARATIONS"],
-     "bp.extension(Extensions::INTERMEDIATE_PREPARATIONS)");
-    ("parser/step", "timer", ["TIMER_REQUIRES_TIME"],
-     "bp.extension(Extensions::TIMER_REQUIRES_TIME)")
+  GateSites.keys = [
+    ("carry", "analysis/event_consumer", "parse_events", "");
+    ("carry", "analysis/event_consumer", "struct RecipeCollector", "");
+    ("carry", "lib", "-", "");
+    ("carry", "lib", "CooklangParser::canonical", "");
+    ("carry", "lib", "CooklangParser::extended", "");
+    ("carry", "lib", "CooklangParser::extensions", "");
+    ("carry", "lib", "CooklangParser::new", "");
+    ("carry", "lib", "CooklangParser::parse_metadata_with_options", "");
+    ("carry", "lib", "CooklangParser::parse_with_options", "");
+    ("carry", "lib", "Extensions::default", "");
+    ("carry", "lib", "struct CooklangParser", "");
+    ("carry", "parser/block_parser", "BlockParser::extension", "");
+    ("carry", "parser/block_parser", "BlockParser::new", "");
+    ("carry", "parser/block_parser", "struct BlockParser", "");
+    ("carry", "parser/mod", "PullParser::new", "");
+    ("carry", "parser/mod", "PullParser::next_block", "");
+    ("carry", "parser/mod", "PullParser::next_metadata_block", "");
+    ("carry", "parser/mod", "struct PullParser", "");
+    ("const", "lib", "bitflags!", "const ADVANCED_UNITS = 1 << 5");
+    ("const", "lib", "bitflags!", "const COMPAT = Self::COMPONENT_MODIFIERS.bits() | Self::COMPONENT_ALIAS.bits() | Self::ADVANCED_UNITS.bits() | Self::MODES.bits() | Self::INLINE_QUANTITIES.bits() | Self::RANGE_VALUES.bits() | Self::INTERMEDIATE_PREPARATIONS.bits()");
+    ("const", "lib", "bitflags!", "const COMPONENT_ALIAS = 1 << 3");
+    ("const", "lib", "bitflags!", "const COMPONENT_MODIFIERS = 1 << 1");
+    ("const", "lib", "bitflags!", "const INLINE_QUANTITIES = 1 << 7");
+    ("const", "lib", "bitflags!", "const INTERMEDIATE_PREPARATIONS = 1 << 11 | Self::COMPONENT_MODIFIERS.bits()");
+    ("const", "lib", "bitflags!", "const MODES = 1 << 6");
+    ("const", "lib", "bitflags!", "const RANGE_VALUES = 1 << 9");
+    ("const", "lib", "bitflags!", "const TIMER_REQUIRES_TIME = 1 << 10");
+    ("const", "lib", "bitflags!", "struct Extensions: u32");
+    ("gate", "analysis/event_consumer", "RecipeCollector::in_step", "INLINE_QUANTITIES");
+    ("gate", "analysis/event_consumer", "RecipeCollector::ingredient", "ADVANCED_UNITS");
+    ("gate", "analysis/event_consumer", "RecipeCollector::metadata", "MODES");
+    ("gate", "analysis/event_consumer", "RecipeCollector::timer", "ADVANCED_UNITS");
+    ("gate", "parser/mod", "parse_block", "MODES");
+    ("gate", "parser/quantity", "parse_quantity", "ADVANCED_UNITS");
+    ("gate", "parser/quantity", "range_value", "RANGE_VALUES");
+    ("gate", "parser/step", "check_alias", "COMPONENT_ALIAS");
+    ("gate", "parser/step", "modifiers", "COMPONENT_MODIFIERS");
+    ("gate", "parser/step", "modifiers", "INTERMEDIATE_PREPARATIONS");
+    ("gate", "parser/step", "parse_alias", "COMPONENT_ALIAS");
+    ("gate", "parser/step", "parse_modifiers", "INTERMEDIATE_PREPARATIONS");
+    ("gate", "parser/step", "timer", "TIMER_REQUIRES_TIME")
   ].
 Proof. reflexivity. Qed.
 Local Close Scope string_scope.
 Print Assumptions C02_gate_inventory.
 
 (* one row of the rendering table per inventory entry, in the same order *)
-Theorem C02_gate_inventory_mapped : map fst GateMap.table = GateSites.sites.
+Theorem C02_gate_inventory_mapped : map fst GateMap.table = GateSites.keys.
 Proof. exact GateMap.table_covers_inventory. Qed.
 Print Assumptions C02_gate_inventory_mapped.
 
+Local Open Scope string_scope.
 Theorem C02_gate_table_checks :
   (forall row, In row GateMap.table ->
      match snd row with
-     | GateMap.Gate f _ _ => In f (map fst GateMap.flags) /\ In f (GateMap.site_flags (fst row))
+     | GateMap.Gate f _ _ => In f (map fst GateMap.flags) /\ GateMap.key_detail (fst row) = f /\
+                             GateMap.key_class (fst row) = "gate"
      | _ => True
      end) /\
-  (forall row, In row GateMap.table -> GateMap.in_stage (fst row) = true -> GateMap.site_flags (fst row) <> [] ->
-     GateMap.is_gate (snd row) = true) /\
+  (forall row, In row GateMap.table -> GateMap.key_class (fst row) = "gate" -> GateMap.is_gate (snd row) = true) /\
   (forall f, In f (map fst GateMap.flags) ->
      exists row, In row GateMap.table /\ GateMap.in_stage (fst row) = true /\ GateMap.is_gate_for f (snd row) = true).
 Proof. exact GateMap.table_checks_spec. Qed.
+Local Close Scope string_scope.
 Print Assumptions C02_gate_table_checks.
